@@ -37,6 +37,9 @@ pub enum Op2 {
 pub enum Ops {
     L1(Vec<Op1>),
     L2(Vec<Op2>),
+    /// level 2 operations, each executed as its own top-level run on the context returned by the previous run;
+    /// the flag says whether that run ends through the `exit` command
+    L3(Vec<(Op2, bool)>),
 }
 
 #[derive(Serialize, Deserialize, Clone, Debug, PartialEq)]
@@ -125,8 +128,8 @@ fn compare_tables(real: &Commands, m: &Model, ident: impl Fn(&dyn Command) -> St
     None
 }
 
-const NAMES1: [&str; 5] = ["n0", "n1", "n2", "n3", "n4"];
-const ALIASES1: [&str; 8] = ["n0", "n1", "n2", "n3", "n4", "x", "y", "z"];
+const NAMES1: [&str; 6] = ["n0", "n1", "n2", "n3", "n4", "pkg::a"];
+const ALIASES1: [&str; 11] = ["n0", "n1", "n2", "n3", "n4", "x", "y", "z", "pkg::a", "ext::tool", "n1::x"];
 
 fn run_l1(ops: &[Op1]) -> Verdict {
     let mut real = Commands::new();
@@ -228,8 +231,17 @@ fn sync_model(real: &Commands) -> Model {
     }
 }
 
-fn run_l2(ops: &[Op2]) -> Verdict {
+fn run_l2(ops: &[Op2], exits: Option<&[bool]>) -> Verdict {
     let mut world = OpWorld::new_sdk();
+    if exits.is_some() {
+        // the `exit` command is kept out of the simulated worlds in general; here it is what ends a run
+        let mut full = Commands::new();
+        duckscriptsdk::load(&mut full).expect("sdk load");
+        if let Some(exit) = full.get_for_use("exit") {
+            let _ = world.ctx.commands.set(exit);
+            sim::decorate(&mut world.ctx.commands);
+        }
+    }
     // the instruction list the function definitions live in: `fn f<k>` at line 2k, `end` at 2k+1
     let mut text = String::new();
     for k in 0..N_FNS {
@@ -244,6 +256,12 @@ fn run_l2(ops: &[Op2]) -> Verdict {
     for (i, op) in ops.iter().enumerate() {
         let label = format!("op #{} {:?}", i, op);
         let mut resync = false;
+        if let Some(e) = exits {
+            world.run_mode = Some(e.get(i).copied().unwrap_or(false));
+            if world.run_mode == Some(true) {
+                sim::with_core(|c| c.probe("run-ended-by-exit-then-context-reused"));
+            }
+        }
         match op {
             Op2::Alias(n, rest) => {
                 let mut args = vec![n.clone()];
@@ -297,6 +315,10 @@ fn run_l2(ops: &[Op2]) -> Verdict {
                 let want = m.exists(x);
                 world.op("is_command_defined", &[x.clone()], &if want { Want::True } else { Want::False }, &[x.clone()]);
             }
+            Op2::Invoke(x) if exits.is_some() && (!m.exists(x) || x.starts_with('f')) => {
+                let want = m.exists(x);
+                world.op("is_command_defined", &[x.clone()], &if want { Want::True } else { Want::False }, &[x.clone()]);
+            }
             Op2::Invoke(x) => {
                 // a command that is reachable must be found (whatever it answers); one that is not must crash "not found"
                 let got = world.run(x, &[s("v")]);
@@ -313,16 +335,30 @@ fn run_l2(ops: &[Op2]) -> Verdict {
                 let name = format!("f{}", k);
                 let line = 2 * k;
                 let first = !defined_fn.contains(k);
-                let (result, _) = duckscript::runner::run_instruction(
-                    &mut world.ctx.commands,
-                    &mut world.ctx.variables,
-                    &mut world.ctx.state,
-                    &instructions,
-                    instructions[line].clone(),
-                    line,
-                    &mut world.env,
-                );
-                let kind = sim::result_kind(&result).to_string();
+                let kind = if let Some(e) = exits {
+                    // the definition is its own run; refused definitions answer Error, which the runner survives
+                    let before = world.ctx.commands.commands.len();
+                    let text = format!("fn {}\nend\n{}", name, if e.get(i).copied().unwrap_or(false) { "exit\n" } else { "" });
+                    let out = world.run_text(&text);
+                    if matches!(out, Out::Crash(_)) {
+                        "Crash".to_string()
+                    } else if world.ctx.commands.commands.len() > before {
+                        "GoToLine".to_string()
+                    } else {
+                        "Error".to_string()
+                    }
+                } else {
+                    let (result, _) = duckscript::runner::run_instruction(
+                        &mut world.ctx.commands,
+                        &mut world.ctx.variables,
+                        &mut world.ctx.state,
+                        &instructions,
+                        instructions[line].clone(),
+                        line,
+                        &mut world.env,
+                    );
+                    sim::result_kind(&result).to_string()
+                };
                 sim::with_core(|c| {
                     let seq = c.next_seq();
                     c.log.push(sim::Event::Op { seq, op: "fn".to_string(), args: vec![name.clone()], got: kind.clone(), want: String::new() });
@@ -438,7 +474,11 @@ impl Prop for C15 {
         if tier == "quick" { 60_000 } else { 3_000_000 }
     }
     fn generate(&self, rng: &mut Rng, _avoid: &[String]) -> Value {
-        let ops = if rng.chance(2, 3) { Ops::L1(gen_l1(rng)) } else { Ops::L2(gen_l2(rng)) };
+        let ops = match rng.below(6) {
+            0..=3 => Ops::L1(gen_l1(rng)),
+            4 => Ops::L2(gen_l2(rng)),
+            _ => Ops::L3(gen_l2(rng).into_iter().map(|o| (o, rng.chance(1, 3))).collect()),
+        };
         serde_json::to_value(Case { entropy: rng.next_u64(), ops }).unwrap()
     }
     fn execute(&self, case: &Value, _env: &WorkerEnv) -> Outcome {
@@ -448,7 +488,12 @@ impl Prop for C15 {
         };
         let res = std::panic::catch_unwind(std::panic::AssertUnwindSafe(|| match &case.ops {
             Ops::L1(ops) => run_l1(ops),
-            Ops::L2(ops) => run_l2(ops),
+            Ops::L2(ops) => run_l2(ops, None),
+            Ops::L3(pairs) => {
+                let ops: Vec<Op2> = pairs.iter().map(|p| p.0.clone()).collect();
+                let exits: Vec<bool> = pairs.iter().map(|p| p.1).collect();
+                run_l2(&ops, Some(&exits))
+            }
         }));
         let verdict = match res {
             Ok(v) => v,
@@ -489,6 +534,20 @@ impl Prop for C15 {
                     let mut v = ops.clone();
                     v.remove(i);
                     out.push(Case { entropy: case.entropy, ops: Ops::L2(v) });
+                }
+            }
+            Ops::L3(pairs) => {
+                for i in (0..pairs.len()).rev() {
+                    let mut v = pairs.clone();
+                    v.remove(i);
+                    out.push(Case { entropy: case.entropy, ops: Ops::L3(v) });
+                }
+                for i in 0..pairs.len() {
+                    if pairs[i].1 {
+                        let mut v = pairs.clone();
+                        v[i].1 = false;
+                        out.push(Case { entropy: case.entropy, ops: Ops::L3(v) });
+                    }
                 }
             }
         }
